@@ -252,6 +252,10 @@ func diagTexts(d syntax.Diagnostics) []string {
 	return out
 }
 
+// evSharedExecCtx, when set, replaces the fresh ExecContext of evRun: the caller-held collaborator is then the SAME
+// object for a sequence of evaluations, as in a long-running service.
+var evSharedExecCtx *esc.ExecContext
+
 func evRun(c map[string]any, secrets map[string]string) (map[string]any, *esc.Environment, syntax.Diagnostics) {
 	w := &evWorld{envs: map[string]map[string]any{}, provs: map[string]map[string]any{}, fault: -1, secrets: secrets}
 	if envs, ok := c["envs"].(map[string]any); ok {
@@ -292,6 +296,9 @@ func evRun(c map[string]any, secrets map[string]string) (map[string]any, *esc.En
 	if err != nil {
 		res["loaderr"] = true
 		return res, nil, nil
+	}
+	if evSharedExecCtx != nil {
+		execCtx = evSharedExecCtx // one caller-held context serving several evaluations (history runs)
 	}
 	var out *esc.Environment
 	var diags syntax.Diagnostics
@@ -383,6 +390,51 @@ func evHandler(c map[string]any) map[string]any {
 			} else if strings.Join(d0, "\n") != strings.Join(d2, "\n") {
 				diff = "diagnostics differ between runs: " + strings.Join(d0, " | ") + " <> " + strings.Join(d2, " | ")
 			}
+		}
+		// history: the same collaborators (one ExecContext object) first serve evaluations of OTHER environments of the
+		// world (each import as a root of its own, then a small unrelated definition), then this one again
+		if diff == "" && c["history"] == true {
+			shared, _ := esc.NewExecContext(map[string]esc.Value{})
+			if cv, ok := c["ctx"].(map[string]any); ok {
+				vals := map[string]esc.Value{}
+				for k, v := range cv {
+					vals[k] = valueFrom(v, nil)
+				}
+				shared, _ = esc.NewExecContext(vals)
+			}
+			evSharedExecCtx = shared
+			func() {
+				defer func() { evSharedExecCtx = nil; _ = recover() }()
+				names := []string{}
+				if envs, ok := c["envs"].(map[string]any); ok {
+					for n := range envs {
+						names = append(names, n)
+					}
+				}
+				sort.Strings(names)
+				for _, n := range names {
+					if e, ok := c["envs"].(map[string]any)[n].(map[string]any); ok && e["kind"] == "yaml" {
+						c2 := map[string]any{}
+						for k, v := range c {
+							c2[k] = v
+						}
+						c2["name"], c2["text"] = n, e["text"]
+						evRun(c2, nil)
+					}
+				}
+				c3 := map[string]any{"name": "hist-other", "text": "values:\n  n: ${context.rootEnvironment.name}\n  m: {fn::toJSON: [1, 2]}\n",
+					"envs": c["envs"], "provs": c["provs"]}
+				evRun(c3, nil)
+				_, o2, dg2 := evRun(c, nil)
+				b2, err2 := json.Marshal(o2)
+				d2 := diagTexts(dg2)
+				sort.Strings(d2)
+				if (err0 == nil) != (err2 == nil) || string(b0) != string(b2) {
+					diff = "environment JSON depends on the evaluations that preceded it (shared ExecContext)"
+				} else if strings.Join(d0, "\n") != strings.Join(d2, "\n") {
+					diff = "diagnostics depend on the evaluations that preceded it (shared ExecContext)"
+				}
+			}()
 		}
 		res["repeat_diff"] = diff
 		sum := sha256.Sum256([]byte(string(b0) + "\x00" + strings.Join(d0, "\n")))
